@@ -50,6 +50,12 @@ def setmsg(dev, name, K, elvals, state="Ok"):
                 ch.append(("oneBLOB", (("name", e), ("size", "0"), ("format", ".x")), None))
             elif val == "absent":
                 ch.append(("oneBLOB", (("name", e), ("size", "3"), ("format", ".x")), None))
+            elif val == "wrong-size":
+                ch.append(("oneBLOB", (("name", e), ("size", "5"), ("format", ".x")), B1))
+            elif val == "bad-base64":
+                ch.append(("oneBLOB", (("name", e), ("size", "3"), ("format", ".x")), "@@@="))
+            elif val == "bad-size":
+                ch.append(("oneBLOB", (("name", e), ("size", "big"), ("format", ".x")), B1))
             else:
                 raw = {B1: b"ab", B2: b"\x00\xff\x10"}[val]
                 ch.append(("oneBLOB", (("name", e), ("size", str(len(raw))), ("format", ".x" if val == B1 else ".y")), val))
@@ -84,6 +90,14 @@ def alphabet(tier):
             A.append(setmsg("D1", "V1", K, (("a", v1), ("z", v2), ("b", v1)), "Ok"))
     A.append(setmsg("D1", "V1", "BLOB", (("a", "empty"),)))
     A.append(setmsg("D1", "V1", "BLOB", (("a", "absent"),)))
+    # a valid element followed by one whose declared size / payload is inconsistent
+    A.append(setmsg("D1", "V1", "BLOB", (("a", B2), ("b", "wrong-size"))))
+    A.append(setmsg("D1", "V1", "BLOB", (("b", "bad-base64"),)))
+    A.append(setmsg("D1", "V1", "BLOB", (("a", "bad-size"),)))
+    # the same element named twice in one update
+    A.append(setmsg("D1", "V1", "Text", (("a", "t2"), ("a", "t1"))))
+    A.append(setmsg("D1", "V1", "Number", (("a", "2.5"), ("b", "1"), ("a", "1"))))
+    A.append(setmsg("D1", "V1", "Switch", (("a", "Off"), ("a", "On"))))
     A.append(setmsg("D1", "V2", "Text", (("a", "t2"),)))
     A.append(setmsg("D2", "V1", "Text", (("a", "t2"),), "Busy"))
     A.append(setmsg("D1", "V9", "Text", (("a", "t1"),)))
@@ -204,6 +218,8 @@ def views_equal(libv, modv):
                     return False
                 if lval == mval:
                     continue
+                if isinstance(mval, tuple) and mval[0] == "ANY":
+                    continue
                 if isinstance(mval, tuple) and mval[0] == "EMPTY":
                     if lval is None or (isinstance(lval, tuple) and lval[0] == b"" and lval[1] == mval[1]):
                         continue
@@ -237,6 +253,8 @@ def ev_match(got, want):
         return False
     for g, w in ((got[4], want[4]), (got[5], want[5])):
         if g == w:
+            continue
+        if isinstance(w, tuple) and w[0] == "ANY":
             continue
         if isinstance(w, tuple) and w[0] == "EMPTY" and (g is None or (isinstance(g, tuple) and g[0] == b"" and g[1] == w[1])):
             continue
